@@ -37,7 +37,7 @@ META = {
     "explanation": "lag invariant proved for the loop model; implementation traces validated against it; memory measured",
 }
 
-LAG_EXPECTED = {"json": 0, "msgpack": 0, "yaml": 1, "yaml16": 1, "yaml32": 1, "yamls": 1, "yamlf": 1}     # what the model predicts with need k = end of k (JSON, MessagePack) / start of k+1 (YAML)
+LAG_EXPECTED = {"json": 0, "msgpack": 0, "yaml": 1, "yaml16": 1, "yaml32": 1, "yamls": 1, "yamlf": 1, "yamlb": 1}     # what the model predicts with need k = end of k (JSON, MessagePack) / start of k+1 (YAML)
 LAG_BOUND = 2                                             # what the property demands
 KNOWN_REENC = "K-C05-utf16-yaml-reencoder-fills-buffer"
 
@@ -59,11 +59,12 @@ def run(outcome, tier, seed):
     ns = [30, 300, 3000] + ([20000, 200000] if tier == "thorough" else [20000])
     sizes = [48, 200, 5000] + ([70000, 262144] if tier == "thorough" else [70000])
     # yamls: scalar documents after a first mapping; yamlf: flow sequences, the first starting at byte 0 with '['
-    for fmt in ("json", "msgpack", "yaml", "yaml16", "yaml32", "yamls", "yamlf"):
+    # yamlb: UTF-8 behind a byte order mark, the first document implicit
+    for fmt in ("json", "msgpack", "yaml", "yaml16", "yaml32", "yamls", "yamlf", "yamlb"):
         for to in ("json", "msgpack", "yaml"):
             if tier == "quick" and to == "msgpack" and fmt != "json":
                 continue
-            if fmt in ("yamls", "yamlf") and to != "json":
+            if fmt in ("yamls", "yamlf", "yamlb") and to != "json":
                 continue        # the harness counts written documents by their size in bytes, equal only in JSON
             if fmt in ("yaml16", "yaml32") and to != "json" and tier == "quick":
                 continue
@@ -73,10 +74,17 @@ def run(outcome, tier, seed):
                         continue
                     for packet in (size, max(1, size // 3), size * 3 + 7, 1 if n * size < 200000 else 4096):
                         for detect in (False, True):
-                            if tier == "quick" and rng.random() < (0.6 if fmt not in ("yamls", "yamlf") else 0.3):
+                            if tier == "quick" and rng.random() < (0.6 if fmt not in ("yamls", "yamlf", "yamlb") else 0.3):
                                 continue
                             reqs.append({"id": len(reqs), "op": "stream", "format": fmt, "to": to, "n": n, "size": size,
                                          "packet": packet, "detect": detect})
+    # one large document followed by many small ones, one small document per read: whatever read-ahead the large one caused
+    # must not hold the small ones back
+    for fmt in ("json", "msgpack", "yaml"):
+        for first in (9000, 40000, 70000, 300000):
+            for detect in (False, True):
+                reqs.append({"id": len(reqs), "op": "stream", "format": fmt, "to": "json", "n": 600, "size": 48, "first": first,
+                             "packet": 48, "detect": detect})
     # memory: the same stream at N and 4N
     mem = []
     for fmt in ("json", "msgpack", "yaml", "yaml16", "yaml32", "yamlx"):
@@ -89,7 +97,7 @@ def run(outcome, tier, seed):
     resps = common.harness_batch(reqs + mem, timeout=2400, jobs=8)
     lags = {}
     for req, r in zip(reqs, resps[:len(reqs)]):
-        info = {k: req[k] for k in ("format", "to", "n", "size", "packet", "detect")}
+        info = {k: req[k] for k in ("format", "to", "n", "size", "packet", "detect", "first") if k in req}
         if r.get("crash") or r.get("hang") or not r.get("ok"):
             outcome.oracle_failures.append(dict(info, what="a stream of valid documents does not translate: %s" % (r.get("err") or r)))
             continue
